@@ -38,9 +38,9 @@ def main():
     p = os.path.join(VERIF, 'DESIGN.md')
     s = open(p).read()
     for name, fn in (('FINDINGS', findings_table), ('MUTANTS', mutants_table)):
-        rx = re.compile(r'(<!-- BEGIN %s -->\n).*?(\n<!-- END %s -->)' % (name, name), re.S)
+        rx = re.compile(r'(<!-- BEGIN %s -->\n).*?(<!-- END %s -->)' % (name, name), re.S)
         assert rx.search(s), name
-        s = rx.sub(lambda m: m.group(1) + fn() + m.group(2), s)
+        s = rx.sub(lambda m: m.group(1) + fn() + '\n' + m.group(2), s)
     open(p, 'w').write(s)
 
 
